@@ -85,6 +85,9 @@ func (a Alphabet) allowed() []byte {
 	return out
 }
 
+// HostileTokens are multi-byte sequences with a special meaning to some layer.
+var HostileTokens = [][]byte{[]byte("\xef\xbb\xbf"), []byte("%"), []byte("%s"), []byte("%d%!"), []byte("%%"), []byte("\x1f\x8b"), []byte("\xff\xfe"), []byte("\\n"), []byte("\u0085"), []byte("\u00a0"), []byte("\v"), []byte("\f")}
+
 // Byte draws one byte of the alphabet (mixture: hostile, printable, uniform).
 func (a Alphabet) Byte() *rapid.Generator[byte] {
 	var hostile []byte
@@ -120,6 +123,26 @@ func (a Alphabet) Bytes(lo, hi int) *rapid.Generator[B] {
 			c := rapid.SampledFrom(a.Hostile).Draw(t, "first")
 			if !a.excluded(c) {
 				s[0] = c
+			}
+		}
+		// Multi-byte tokens that some code treats specially (byte order mark, fmt verbs,
+		// gzip magic number), at the start or inside the field.
+		if hi >= 4 && rapid.IntRange(0, 39).Draw(t, "token") == 17 {
+			tok := rapid.SampledFrom(HostileTokens).Draw(t, "tok")
+			ok := true
+			for _, c := range tok {
+				ok = ok && !a.excluded(c)
+			}
+			if ok {
+				if rapid.Bool().Draw(t, "tokFirst") || len(s) == 0 {
+					s = append(append([]byte{}, tok...), s...)
+				} else {
+					pos := rapid.IntRange(0, len(s)).Draw(t, "tokPos")
+					s = append(s[:pos:pos], append(append([]byte{}, tok...), s[pos:]...)...)
+				}
+				if len(s) > hi {
+					s = s[:hi]
+				}
 			}
 		}
 		return B(s)
